@@ -1,7 +1,7 @@
 //! C12 Hidden values equal the RFC 2661 section 4.3 MD5 construction computed independently.
 
 use super::common::*;
-use super::c11::{grid_case, random_case, HideCase};
+use super::c11::{feedback_case, grid_case, random_case, HideCase};
 use super::*;
 use crate::exec::{self, Out, Wk};
 use crate::gen::val;
@@ -23,7 +23,7 @@ pub fn def() -> PropDef {
 }
 
 fn streams(t: Tier) -> Vec<StreamDef> {
-    vec![st("grid", t.n(39 * 16 * 8, 39 * 16 * 64, 80, 39 * 16 * 2), true), st("random", t.n(30_000, 1_500_000, 60, 8_000), false), st("reveal_any", t.n(40_000, 2_000_000, 80, 10_000), false), st("giant", t.n(16, 128, 0, 16), false)]
+    vec![st("grid", t.n(39 * 16 * 8, 39 * 16 * 64, 80, 39 * 16 * 2), true), st("random", t.n(30_000, 1_500_000, 60, 8_000), false), st("reveal_any", t.n(40_000, 2_000_000, 80, 10_000), false), st("giant", t.n(16, 128, 0, 16), false), st("feedback", t.n(6_000, 200_000, 30, 2_000), false)]
 }
 
 fn floors(t: Tier) -> Vec<(String, u64)> {
@@ -230,6 +230,11 @@ fn run(ctx: &mut Ctx) {
         }
         "random" => {
             let c = random_case(&mut ctx.rng);
+            judge_hide(ctx, &c);
+        }
+        "feedback" => {
+            let c = feedback_case(&mut ctx.rng);
+            ctx.rep.bucket("feedback.cases");
             judge_hide(ctx, &c);
         }
         "reveal_any" => judge_reveal(ctx),
